@@ -493,6 +493,11 @@ def simplify(*, event: Event, graph: NxMixedGraph) -> Event | None:
             minimized_reflexive_variable_to_value_mappings
         )
     )
+    # A value of None is consistent with a specific value (see _remove_repeated_variables_and_values()),
+    # also when the two come from $Y_{y}$ and $Y$, which have just been merged.
+    for reflexive_variable_values in minimized_reflexive_variable_to_value_mappings.values():
+        if len(reflexive_variable_values) > 1 and None in reflexive_variable_values:
+            reflexive_variable_values.remove(None)
 
     # logger.debug(
     #    "In simplify after part 2 of line 3: minimized_reflexive_variable_to_value_mappings = "
